@@ -32,6 +32,10 @@ _STATS = {'True': [0, 0], 'recursive': [0, 0]}     # mode -> [rule calls, cells 
 NOTES = ['every (N, r) with 1 <= r <= N <= 9 and every T in 1..6 is enumerated in all three modes; quick: alphabet, '
          'fixed/callable and the shape of the initial row cycle; thorough: crossed completely',
          'cache hit rate: (filled in by the run)',
+         'float/signed_zero is decided by the Python oracle alone (the Z-valued model cannot express -0.0; its Coq case is the '
+         'always-true CNotCompared): float64 / float32 automata over {0.0, -0.0, 1.0}, r = 1..2, T = 3..5, three pure rules that '
+         'observe the sign of a zero (two of them return -0.0, so later rows keep signed zeros), fixed and callable timesteps; '
+         'memoize=False, True and a non-interned "recursive" must return bit-identical arrays (tobytes(), dtype, shape)',
          'call sequences: history/* build a rule object per call (history/dtypes shares one); shared/* pass ONE rule object '
          'to all 2-5 calls, which differ in radius (both orders), dtype (int8 <-> uint8 on aliasing bytes, int32 <-> int64), '
          'memoize mode, on identical or overlapping rows; more than half of all sequences share the object']
@@ -279,8 +283,48 @@ def gen_outofrange(rng, tier):
         yield {'kind': 'outofrange/%s' % dtype, 'finding': 'cast-path', 'calls': calls}
 
 
+SZ_RULES = ('copysign_centre', 'copysign_sum', 'flip_zero')
+
+
+class SignRule:
+    """pure rules on float neighbourhoods that observe the SIGN of a zero (bucket float/signed_zero; no Coq twin)"""
+    def __init__(self, name, r):
+        self.name, self.r, self.ncalls = name, r, 0
+
+    def __call__(self, nbhd_arg, cell_arg, step_arg):
+        n = [float(x) for x in np.asarray(nbhd_arg).ravel()]     # positional parameters, not named (n, c, t)
+        self.ncalls += 1
+        sg = [1.0 if np.copysign(1.0, x) > 0 else -1.0 for x in n]
+        if self.name == 'copysign_centre':         # +1.0 / -1.0 -> stored as 1.0 / -0.0 so that later rows keep signed zeros
+            return 1.0 if sg[self.r] > 0 else -0.0
+        if self.name == 'copysign_sum':            # number of negative signs selects 0.0 / -0.0 / 1.0
+            return (0.0, -0.0, 1.0)[sum(1 for x in sg if x < 0) % 3]
+        # flip_zero: a zero centre changes its sign when its left neighbour is negative-signed; others copy the right sign
+        c = n[self.r]
+        if c == 0.0:
+            return -c if sg[self.r - 1] < 0 else c
+        return 0.0 if sg[self.r + 1] > 0 else -0.0
+
+
+def gen_signed_zero(rng, tier):
+    """ORACLE-ONLY bucket: float automata over {0.0, -0.0, 1.0} and pure rules that see the sign of a zero.  The
+    Z-valued model cannot express -0.0, so nothing is compared in Coq; oracle() requires the arrays of the three
+    modes to be bit-identical (tobytes()).  Neighbourhoods that differ only in the sign of a zero are different
+    byte strings, hence different cache keys."""
+    n = 60 if tier == 'quick' else 600
+    for j in range(n):
+        N = rng.randint(5, 14)
+        r = 1 + j % 2
+        row = [rng.choice([0.0, -0.0, 0.0, -0.0, 1.0]) for _ in range(N)]
+        if not any(x == 0.0 and np.copysign(1.0, x) < 0 for x in row):
+            row[rng.randrange(N)] = -0.0
+        yield {'kind': 'float/signed_zero', 'oracle_only': 'signed_zero', 'dtype': ('float64', 'float32')[(j // 2) % 2],
+               'row': row, 'r': r, 'T': rng.randint(3, 5), 'dyn': (j // 4) % 2 == 1, 'rule': SZ_RULES[j % 3]}
+
+
 def generate(rng, tier):
     yield from gen_outofrange(rng, tier)
+    yield from gen_signed_zero(rng, tier)
     yield from gen_sweep(rng, tier)
     yield from gen_options(rng, tier)
     yield from gen_histories(rng, tier)
@@ -307,7 +351,9 @@ class SumOff:
     def __init__(self, ws, b):
         self.ws, self.b = ws, b
 
-    def __call__(self, n, c, t):
+    def __call__(self, nbhd_arg, cell_arg, step_arg):
+
+        n, c, t = nbhd_arg, cell_arg, step_arg   # not named (n, c, t): the library must call rules positionally
         return sum(w * int(x) for w, x in zip(self.ws, np.asarray(n).ravel())) + self.b
 
 
@@ -333,8 +379,27 @@ def run_call(cpl, call, memo_value, rule=None):
     return ['ok', _to_int_rows(res[1])], len(log), log
 
 
+def _run_signed_zero(cpl, c):
+    obs = []
+    for memo in (False, True, ''.join(['recur', 'sive'])):
+        ca = np.array([c['row']], dtype=c['dtype'])
+        rule = SignRule(c['rule'], c['r'])
+        ts = PredLt(c['T']) if c['dyn'] else c['T']
+        res = call_impl(lambda: cpl.evolve(ca, timesteps=ts, apply_rule=rule, r=c['r'], memoize=memo))
+        if res[0] != 'ok':
+            obs.append({'res': list(res), 'ncalls': rule.ncalls})
+            continue
+        out = np.asarray(res[1])
+        obs.append({'res': ['ok', {'bytes': out.tobytes().hex(), 'dtype': str(out.dtype), 'shape': [int(x) for x in out.shape],
+                                   'negzeros': int(np.sum((out == 0) & np.signbit(out)))}],
+                    'ncalls': rule.ncalls})
+    return obs
+
+
 def run_impl(c):
     import cellpylib as cpl
+    if c.get('oracle_only') == 'signed_zero':
+        return _run_signed_zero(cpl, c)
     obs = []
     objs = {}          # 'obj' key -> the one rule object passed to every call that carries the key
     for call in c['calls']:
@@ -368,8 +433,8 @@ def _cobs(o):
 
 
 def to_coq(c, obs):
-    if c.get('finding'):
-        return 'CNotCompared'        # outside the model's assumption (results fit the dtype): oracle() only
+    if c.get('finding') or c.get('oracle_only'):
+        return 'CNotCompared'        # outside what the Z-valued model expresses: decided by oracle() only
     if len(c['calls']) == 1 and not c['kind'].startswith('history'):
         return '(CEvolve %s %s)' % (coq_call(c['calls'][0]), _cobs(obs[0]['res']))
     return '(CHistory %s %s)' % (clist(c['calls'], coq_call), clist([o['res'] for o in obs], _cobs))
@@ -382,6 +447,10 @@ def _cells(call):
 def nontrivial(c, obs):
     if c.get('finding'):
         return False
+    if c.get('oracle_only'):
+        # all modes returned, -0.0 survives into the result, and memoize=True answered some cell from its cache
+        return (all(o['res'][0] == 'ok' for o in obs) and obs[0]['res'][1]['negzeros'] > 1
+                and obs[1]['ncalls'] < obs[0]['ncalls'])
     hit = False
     for call, ob in zip(c['calls'], obs):
         if ob['res'][0] != 'ok':
@@ -402,6 +471,17 @@ def oracle(c, obs):
     """C03 on the implementation alone: every supported option value gives the array memoize=False gives;
     a string equal to 'recursive' is accepted however it was built; an unsupported value is rejected
     (when a step is attempted)."""
+    if c.get('oracle_only') == 'signed_zero':
+        ref = obs[0]['res']         # memoize=False, then True, then 'recursive'
+        if ref[0] != 'ok':
+            return 'memoize=False raised %s on a float automaton' % ref[1]
+        for mode, ob in zip(('True', 'recursive'), obs[1:]):
+            if ob['res'][0] != 'ok':
+                return 'memoize=%s raised %s' % (mode, ob['res'][1])
+            if {k: ob['res'][1][k] for k in ('bytes', 'dtype', 'shape')} != {k: ref[1][k] for k in ('bytes', 'dtype', 'shape')}:
+                return ('memoize=%s is not bit-identical to memoize=False on a float automaton with signed zeros '
+                        '(rule %s observes the sign of zero)' % (mode, c['rule']))
+        return None
     if c.get('finding') == 'cast-path':
         ref = obs[0]['res']         # calls[0] is memoize=False
         for call, ob in zip(c['calls'][1:], obs[1:]):
@@ -423,6 +503,8 @@ def oracle(c, obs):
 
 
 def shrink(c):
+    if c.get('oracle_only'):
+        return
     calls = c['calls']
     if len(calls) > 1:
         for i in range(len(calls)):
